@@ -421,7 +421,13 @@ class Monitor(object):
             if i.accounts:
                 self.v("C05", "account-lost", "client %d accepted without a stamp (%r) although a login-type service vouched %s" % (i.id, ln, i.accounts))
         # ---- C05 / C11: class
-        if self.cfg.use_class:
+        current = set(n.lower() for n, _ in self.cfg.services)
+        retired_ok = set(s for s in i.ok_from if s not in current)
+        if self.cfg.use_class and retired_ok and any((r.get("xreply_ok") or "").lower() in retired_ok for r in self.cfg.rules):
+            # a rule asks whether a service said OK that a reload has meanwhile removed from the file: whether such an answer
+            # still counts is not something the statements decide - not judged
+            self.stats["class_unjudged_retired_service"] = self.stats.get("class_unjudged_retired_service", 0) + 1
+        elif self.cfg.use_class:
             self.stats["class_decisions"] += 1
             client = {"account": acct if acct is not None else (i.accounts[-1] if i.accounts else None), "addr": i.addr, "ident": i.ident,
                       "hostname": i.host or "", "ok_services": i.ok_from, "cli_username": i.user or ""}
